@@ -29,6 +29,17 @@ pub enum IdOp {
     DetachDelete { uid: i64 },
     Compact,
     Reopen,
+    /// explicit transaction: creating statements, statements that create and then fail at
+    /// run time (rolled back to their savepoint), then commit or rollback
+    Txn { parts: Vec<TxnPart>, commit: bool },
+}
+
+#[derive(Serialize, Deserialize, Clone, Debug, PartialEq)]
+pub enum TxnPart {
+    Create { uid: i64 },
+    UnwindCreate { uids: Vec<i64> },
+    /// UNWIND over `uids` creating a node per row; the last row raises a runtime error
+    FailingCreate { uids: Vec<i64> },
 }
 
 impl IdOp {
@@ -40,6 +51,8 @@ impl IdOp {
             IdOp::DetachDelete { .. } => "detach_delete",
             IdOp::Compact => "compact",
             IdOp::Reopen => "reopen",
+            IdOp::Txn { commit: true, .. } => "txn",
+            IdOp::Txn { commit: false, .. } => "txn_rollback",
         }
     }
 }
@@ -60,7 +73,47 @@ impl Check for IdentityCheck {
         let mut live: Vec<i64> = Vec::new();
         let mut ops = Vec::new();
         for _ in 0..n {
-            let op = match rng.below(12) {
+            let op = match rng.below(15) {
+                12..=14 => {
+                    let commit = rng.chance(0.85);
+                    let np = rng.range(2, 5) as usize;
+                    let mut parts = Vec::new();
+                    let mut made: Vec<i64> = Vec::new();
+                    for _ in 0..np {
+                        match rng.below(4) {
+                            0 | 1 => {
+                                uid += 1;
+                                made.push(uid);
+                                parts.push(TxnPart::Create { uid });
+                            }
+                            2 => {
+                                let k = rng.range(2, 4) as usize;
+                                let uids: Vec<i64> = (0..k)
+                                    .map(|_| {
+                                        uid += 1;
+                                        uid
+                                    })
+                                    .collect();
+                                made.extend(&uids);
+                                parts.push(TxnPart::UnwindCreate { uids });
+                            }
+                            _ => {
+                                let k = rng.range(1, 3) as usize;
+                                let uids: Vec<i64> = (0..k)
+                                    .map(|_| {
+                                        uid += 1;
+                                        uid
+                                    })
+                                    .collect();
+                                parts.push(TxnPart::FailingCreate { uids });
+                            }
+                        }
+                    }
+                    if commit {
+                        live.extend(&made);
+                    }
+                    IdOp::Txn { parts, commit }
+                }
                 0..=3 => {
                     uid += 1;
                     live.push(uid);
@@ -141,6 +194,32 @@ impl Check for IdentityCheck {
                     deleted.insert(*uid);
                     d.exec_write(&format!("MATCH (n {{id: {uid}}}) DETACH DELETE n")).map(|_| ())
                 }
+                IdOp::Txn { parts, commit } => (|| {
+                    let tx = d.begin()?;
+                    for p in parts {
+                        match p {
+                            TxnPart::Create { uid } => tx.query(&format!("CREATE (:N {{id: {uid}}})"))?,
+                            TxnPart::UnwindCreate { uids } => {
+                                let l: Vec<String> = uids.iter().map(|u| u.to_string()).collect();
+                                tx.query(&format!("UNWIND [{}] AS x CREATE (:N {{id: x}})", l.join(", ")))?
+                            }
+                            TxnPart::FailingCreate { uids } => {
+                                let l: Vec<String> = uids.iter().map(|u| u.to_string()).collect();
+                                let last = uids.last().copied().unwrap_or(0);
+                                let q = format!(
+                                    "UNWIND [{}] AS x CREATE (:N {{id: x, ok: CASE WHEN x = {last} THEN toBoolean(1) ELSE true END}})",
+                                    l.join(", ")
+                                );
+                                if tx.query(&q).is_ok() {
+                                    res.stats.inc("statement_expected_to_fail_succeeded");
+                                } else {
+                                    res.stats.inc("probe:statement_rolled_back_inside_txn");
+                                }
+                            }
+                        }
+                    }
+                    if *commit { tx.commit() } else { tx.rollback() }
+                })(),
                 IdOp::Compact => d.compact(),
                 IdOp::Reopen => {
                     let old = db.take().unwrap();
@@ -217,7 +296,7 @@ impl Check for IdentityCheck {
         res
     }
     fn rule(&self) -> String {
-        "Create-heavy sessions through the C API (single CREATE, UNWIND..CREATE of 2-20 nodes, MERGE creates, DETACH DELETE, compaction, close + reopen) under a simulated wall clock whose regime is chosen per run: normal, stalled (never advances), coarse (1 ms granularity, mostly stalled), jumpy (steps backwards / stalls / advances). Oracle: no create statement fails; after every operation id(n) of every live node is distinct, never equals an identity seen before, and never changes across compaction or reopen. evaluations = operations executed; distinct_nontrivial = distinct (regime, identity map, position) states.".into()
+        "Create-heavy sessions through the C API (single CREATE, UNWIND..CREATE of 2-20 nodes, MERGE creates, DETACH DELETE, compaction, close + reopen, and explicit transactions of several creating statements mixed with statements that create and then fail at run time and are rolled back to their savepoint) under a simulated wall clock whose regime is chosen per run: normal, stalled (never advances), coarse (1 ms granularity, mostly stalled), jumpy (steps backwards / stalls / advances). Oracle: no create statement fails; after every operation id(n) of every live node is distinct, never equals an identity seen before, and never changes across compaction or reopen. evaluations = operations executed; distinct_nontrivial = distinct (regime, identity map, position) states.".into()
     }
     fn nontrivial_set(&self) -> &'static str {
         "id_states"
